@@ -142,6 +142,10 @@ def run(rep: Report, tier: str) -> None:
 
     traversal_on_every_path(P, rep, "R12.1")
     alias_after_operand(P, rep, "R12.1")
+    rep.rule("R12.12", "no transpiler / structure-visitor method mutates a dataset structure taken from the tables shared by all statements")
+    stored_structures_untouched(P, rep, "R12.12")
+    from sa.checks.c11 import call_scoped_class_state as _class_state
+    _class_state(P, rep, "R12.13")
     rep.rule("R12.11", "the interpreter evaluates a deep copy of a user-defined operator's stored body on every path")
     udo_body_copied(P, rep, "R12.11")
 
@@ -739,3 +743,39 @@ def handler_field_matrix(P: Program, rep: Report, rule: str, only_nodes: Optiona
         if cn not in N or fl not in N[cn].fields:
             rep.note(f"{rule} exemption refers to a field that no longer exists: {cn}.{fl}")
     return nfields
+
+
+STRUCTURE_SOURCES_CALLS = {"_get_dataset_structure": "the structure of another dataset", "get_structure": "the structure of another dataset", "_get_output_dataset": "the statement's output structure"}
+STRUCTURE_SOURCES_ATTRS = {"available_tables": "available_tables", "output_datasets": "output_datasets", "input_datasets": "input_datasets"}
+
+
+def stored_structures_untouched(P: Program, rep: Report, rule: str) -> int:
+    """No method of the transpiler or its structure visitor mutates a structure it got from the tables shared by all statements
+    (available_tables / input_datasets / output_datasets, or through _get_dataset_structure / _get_output_dataset): the structure of an
+    operand is what every later statement of the same script resolves against, so a component added to it in place makes the result of a
+    later statement depend on which statements were transpiled before it (effect analysis, interprocedural, per method)."""
+    from sa import structmodel as _sm
+    A = EffectAnalysis(P)
+    A.source_calls = dict(STRUCTURE_SOURCES_CALLS)
+    A.source_attrs = dict(STRUCTURE_SOURCES_ATTRS)
+    n = 0
+    seen: Set[str] = set()
+    for cq in (_sm.SV, _sm.TRQ):
+        c = P.cls(cq)
+        for name, f in sorted(c.methods.items()):
+            summ = A.analyse(f, {}, (f.qualname,))
+            n += 1
+            if name in ("_build_calc_structure", "_build_ds_ds_binop_structure", "visit_Assignment"):
+                rep.instance(rule, f.qualname, nontrivial=True, sample={"method": f.qualname, "mutations_of_shared_structures": len(summ.sites)})
+            else:
+                rep.instance(rule, f.qualname, nontrivial=True)
+            for s_ in summ.sites:
+                k = f"{s_.func}/{(s_.norm or s_.text)[:70]}"
+                if k in seen:
+                    continue
+                seen.add(k)
+                rep.add(Finding(rule, f"{rule}/{k}", s_.file, s_.line, s_.func,
+                                f"`{s_.text[:90]}` mutates {', '.join(sorted(set(s_.origins)))} (reached from {f.qualname}): that object is shared by every statement of the script, "
+                                f"so a later statement that enumerates the components of the same dataset sees the change - the result depends on which statements were transpiled before"))
+    rep.floor(f"{rule} transpiler methods analysed", n, 150)
+    return n
